@@ -1139,12 +1139,12 @@ var ruleSnapshot = &core.Rule{ID: "R06.6", Min: 6,
 //	loop:        walk(n) { cur := n; outer: for { for c in cur.children { if c.detector(h,l) { cur = c; continue outer } }; break }; tail(cur) }
 //	loop+helper: walk(n) { cur := n; for { c := scan(cur,h,l); if c == nil { break }; cur = c }; tail(cur) }   scan returns the first accepting child or nil
 type walkShape struct {
-	form     string
-	walk     *ssa.Function // the function detection entries call; it holds the tail (charset, chain clone)
-	scan     *ssa.Function // the function invoking the detector field (== walk except for loop+helper)
-	cur      ssa.Value     // the node the tail works on: walk's receiver (recursive) or the outer loop's phi
-	outer    *ssa.BasicBlock
-	scanCall *ssa.Call // loop+helper: the call of scan in walk
+	form      string
+	walk      *ssa.Function // the function detection entries call; it holds the tail (charset, chain clone)
+	scan      *ssa.Function // the function invoking the detector field (== walk except for loop+helper)
+	cur       ssa.Value     // the node the tail works on: walk's receiver (recursive) or the outer loop's phi
+	outer     *ssa.BasicBlock
+	scanCall  *ssa.Call   // loop+helper: the call of scan in walk
 	scanCalls []*ssa.Call // loop+helper: every call of scan in walk (two in the for-clause spelling)
 	next      ssa.Value   // loop+helper: the candidate tested against nil (the call, or the phi of the two calls)
 }
